@@ -105,6 +105,10 @@ pub fn generate(g: &mut Gen) {
         let n = fx::split_block(&b).map(|rb| rb.bodies.len().max(rb.byron_payloads.len())).unwrap_or(0);
         g.case(ops_for(&b, n, g.thorough()));
     }
+    for b in fx::chunk_blocks(if g.thorough() { 5 } else { 300 }) {
+        let n = fx::split_block(&b).map(|rb| rb.bodies.len().max(rb.byron_payloads.len())).unwrap_or(0);
+        g.case(ops_for(&b, n, g.thorough()));
+    }
     // 2. re-assembled blocks
     let ps = pools();
     for i in 0..g.cases {
